@@ -325,6 +325,31 @@ pub fn run_wasm(case: &str, wasm: &[u8], stats: &mut Stats) {
         "C13" => oracle_c13(&a, &b),
         _ => vec![],
     };
+    let mut fails = fails;
+    if prop == "C13" {
+        // the names must stay where they are under every configuration that leaves the name section
+        // on: the other switches have nothing to say about it
+        for (vname, mk) in [
+            ("producers off", (|c: &mut walrus::ModuleConfig| { c.generate_producers_section(false); }) as fn(&mut walrus::ModuleConfig)),
+            ("code transform preserved", |c| { c.preserve_code_transform(true); }),
+            ("DWARF on", |c| { c.generate_dwarf(true); }),
+            ("producers off, name section asked for explicitly", |c| { c.generate_producers_section(false).generate_name_section(true); }),
+            ("strict validation off", |c| { c.strict_validate(false); }),
+        ] {
+            let mut cfg = walrus::ModuleConfig::new();
+            mk(&mut cfg);
+            match out::catch(|| cfg.parse(wasm).map(|mut m| m.emit_wasm())) {
+                Ok(Ok(bv)) => {
+                    if let Ok(dv) = decode::decode(&bv) {
+                        for (k, msg) in oracle_c13(&a, &dv) {
+                            fails.push((k, format!("[configuration: {}] {}", vname, msg)));
+                        }
+                    }
+                }
+                _ => fails.push(("C13:round-trip-fails-under-configuration".into(), format!("[configuration: {}] the round trip fails", vname))),
+            }
+        }
+    }
     if prop == "C04" || prop == "C13" {
         if fails.is_empty() {
             out::oracle(case, true, "", "");
